@@ -102,6 +102,35 @@ def run(ctx):
         exps.append(exp)
     units.append((SRC_UN, cfgs))
     oracle.append(exps)
+    # casts and unary operators as CONDITIONS (if / while / for / not / and / or / defeat argument): the branch lowering strips
+    # some cast wrappers and must still truncate / test exactly what the value lowering does
+    CONDS = [('x is byte', lambda x, w: (x & 255) != 0), ('(x is byte) is int', lambda x, w: (x & 255) != 0), ('((x is byte) is int) is bool', lambda x, w: (x & 255) != 0),
+             ('b', lambda x, w: (x & 255) != 0), ('b is int', lambda x, w: (x & 255) != 0), ('t is int', lambda x, w: x != 0), ('t is byte', lambda x, w: x != 0),
+             ('(t is byte) is int', lambda x, w: x != 0), ('-x', lambda x, w: x != 0), ('+x', lambda x, w: x != 0), ('-(b is int)', lambda x, w: (x & 255) != 0),
+             ('(x is byte) is bool', lambda x, w: (x & 255) != 0), ('(x + x) is byte', lambda x, w: ((2 * x) & 255) != 0), ('x * 2', lambda x, w: sgn(2 * x, w) != 0),
+             ('(x is bool) is byte', lambda x, w: x != 0), ('x is int', lambda x, w: x != 0), ('(b is int) * 256', lambda x, w: w > 2 and (x & 255) != 0 or w == 2 and sgn((x & 255) * 256, w) != 0)]
+    body = ''
+    for c, _ in CONDS:
+        body += ("    if (%s) { write('T'); } else { write('F'); } if (not (%s)) { write('T'); } else { write('F'); } while (%s) { write('W'); break; } "
+                 "for (int k = 0; %s; k += 1) { write('L'); break; } if ((%s) and t) { write('A'); } else { write('a'); } if ((%s) or (x == 3)) { write('O'); } else { write('o'); }\n"
+                 "    try { !truth_is_defeat((%s) is bool); write('f'); } undo { write('t'); } write(((%s) is bool) is int); write(',');\n") % ((c,) * 8)
+    SRC_COND = ('empty @is_you(const int[] xs) {\n  for (int i = 0; i < xs.length; i += 1) {\n    int x = xs[i]; byte b = x is byte; bool t = x is bool;\n' + body
+                + "    write(';');\n  }\n}\n")
+    cfgs, exps = [], []
+    for w in ws:
+        g = grid(w, rng, 6 if q else 100) + [256, 512, -256, 768, 65280 if w > 2 else -512, 1 << (8 * w - 2)]
+        exp = b''
+        for x in g:
+            for c, f in CONDS:
+                v = bool(f(x, w))
+                t = x != 0
+                exp += (b'T' if v else b'F') + (b'F' if v else b'T') + (b'W' if v else b'') + (b'L' if v else b'') + (b'A' if (v and t) else b'a') + (b'O' if (v or x == 3) else b'o')
+                exp += (b't' if v else b'f') + (b'1' if v else b'0') + b','
+            exp += b';'
+        cfgs.append(Cfg(tuple(str(v) for v in g), w, 400, False))
+        exps.append(exp)
+    units.append((SRC_COND, cfgs))
+    oracle.append(exps)
     # the same operators on LITERAL operands (compile-time folding path), for in-range operands only
     small = [0, 1, -1, 2, -2, 7, 10, 127, 128, 255, 256, -128]
     for op in BIN:
